@@ -166,8 +166,14 @@ class Hugr(Mapping[Node, NodeData], Generic[OpVarCov]):
         parent = parent.to_node() if parent else None
         node_data = NodeData(op, parent, metadata=metadata or {})
 
-        if self._free_nodes:
-            node = self._free_nodes.pop()
+        # Only reuse a free index above the parent's: serialization, loading and
+        # insertion rely on parents having smaller indices than their children.
+        reusable = [
+            n for n in self._free_nodes if parent is None or n.idx > parent.idx
+        ]
+        if reusable:
+            node = reusable[-1]
+            self._free_nodes.remove(node)
             self._nodes[node.idx] = node_data
         else:
             node = Node(len(self._nodes), {})
